@@ -155,6 +155,10 @@ pub enum Cost {
     Max,
     /// 3 iterations / 9217 bytes (not a multiple of 1024: libsodium semantics round down to 9 KiB), 1 pass
     Odd,
+    /// above the C04 budget, for C05 only: 1 000 001 iterations / 96 MiB, 4 passes
+    High,
+    /// Argon2 parallelism 2 (16 KiB, 1 pass): libsodium cannot compute it and must refuse, not mis-derive; k1/k3: 5 iterations
+    Para2,
 }
 
 pub fn params_for<V: Full>(c: Cost) -> <V as PwWrapVersion>::Params {
@@ -166,6 +170,8 @@ pub fn params_for<V: Full>(c: Cost) -> <V as PwWrapVersion>::Params {
                 Cost::Medium => 1000,
                 Cost::Max => 10000,
                 Cost::Odd => 3,
+                Cost::High => 1_000_001,
+                Cost::Para2 => 5,
             };
             it.to_be_bytes().to_vec()
         }
@@ -176,10 +182,13 @@ pub fn params_for<V: Full>(c: Cost) -> <V as PwWrapVersion>::Params {
                 Cost::Medium => (64 * 1024, 3),
                 Cost::Max => (64 * 1024 * 1024, 2),
                 Cost::Odd => (9 * 1024 + 1, 1),
+                Cost::High => (96 * 1024 * 1024, 4),
+                Cost::Para2 => (16 * 1024, 1),
             };
+            let para: u32 = if c == Cost::Para2 { 2 } else { 1 };
             let mut v = mem.to_be_bytes().to_vec();
             v.extend_from_slice(&time.to_be_bytes());
-            v.extend_from_slice(&1u32.to_be_bytes());
+            v.extend_from_slice(&para.to_be_bytes());
             v
         }
     };
